@@ -33,6 +33,107 @@ fn reparse_description(lit: &str) -> Option<String> {
     None
 }
 
+/// A document with a string at EVERY place the grammar allows one (audit G2): the description of every kind of
+/// definition (schema, directive, scalar, object, interface, union, enum, enum value, input object, field, argument,
+/// input field — also inside extensions) and string values as directive arguments at every directive location, as
+/// default values, as field arguments, nested in lists and input objects, at selection-set depths 1–3.
+/// `{L}` marks the places (C06 substitutes a literal there; C09 parses it with `"x"` and rewrites the AST).
+pub const STRING_SITES: &str = r#"{L} schema @d(a: {L}) { query: Q }
+{L} directive @d({L} a: String = {L} @e(a: {L}), {L} b: In = {g: {L}}) repeatable on SCHEMA | OBJECT
+{L} scalar S @d(a: {L})
+{L} type Q implements I @d(a: [{L}, [{L}]]) {
+  {L} f({L} x: String = {L} @d(a: {L}), {L} y: [String] = [{L}, {L}]): Int @d(a: {k: {L}, l: [{L}]})
+  {L} i: Int
+}
+{L} interface I @d(a: {L}) { {L} i({L} z: In = {g: {L}, h: {g: {L}}}): Int }
+{L} union U @d(a: {L}) = Q
+{L} enum E @d(a: {L}) { {L} V @d(a: {L}) {L} W }
+{L} input In @d(a: {L}) { {L} g: String = {L} @d(a: {L}) {L} h: In }
+extend schema @d(a: {L})
+extend scalar S @d(a: {L})
+extend type Q @d(a: {L}) { {L} j: Int }
+extend interface I @d(a: {L}) { {L} j: Int }
+extend union U @d(a: {L}) = Q
+extend enum E @d(a: {L}) { {L} X }
+extend input In @d(a: {L}) { {L} k: String = {L} }
+query N($v: String = {L} @d(a: {L}), $w: In = {g: {L}}) @d(a: {L}) { f(x: {L}, y: [{L}, [{L}]]) @d(a: {L}) a: i { b: i { c: f(x: {L}) } } ... @d(a: {L}) { f(x: {k: {l: {L}}}) } ... on Q { f(x: {L}) } ...F @d(a: {L}) }
+fragment F on Q @d(a: {L}) { f(x: [{L}, {k: {L}}]) }
+"#;
+
+pub enum Slot<'a> { Desc(&'a mut Option<Node<str>>), Val(&'a mut Node<ast::Value>) }
+type SlotFn<'f> = &'f mut dyn FnMut(Slot);
+
+/// visit every description slot and every string value of a document (mutably)
+pub fn walk_strings(doc: &mut ast::Document, f: SlotFn) {
+    fn val(v: &mut Node<ast::Value>, f: SlotFn) {
+        match v.as_ref() { ast::Value::String(_) => { f(Slot::Val(v)); return } ast::Value::List(_) | ast::Value::Object(_) => {} _ => return }
+        match v.make_mut() {
+            ast::Value::List(l) => for x in l.iter_mut() { val(x, f) },
+            ast::Value::Object(o) => for (_, x) in o.iter_mut() { val(x, f) },
+            _ => {}
+        }
+    }
+    fn args(a: &mut Vec<Node<ast::Argument>>, f: SlotFn) { for x in a.iter_mut() { val(&mut x.make_mut().value, f) } }
+    fn dirs(d: &mut ast::DirectiveList, f: SlotFn) { for x in d.0.iter_mut() { args(&mut x.make_mut().arguments, f) } }
+    fn ivd(v: &mut Node<ast::InputValueDefinition>, f: SlotFn) { let v = v.make_mut(); f(Slot::Desc(&mut v.description)); if let Some(d) = &mut v.default_value { val(d, f) } dirs(&mut v.directives, f) }
+    fn fds(fs: &mut Vec<Node<ast::FieldDefinition>>, f: SlotFn) { for x in fs.iter_mut() { let x = x.make_mut(); f(Slot::Desc(&mut x.description)); for a in x.arguments.iter_mut() { ivd(a, f) } dirs(&mut x.directives, f) } }
+    fn evs(vs: &mut Vec<Node<ast::EnumValueDefinition>>, f: SlotFn) { for x in vs.iter_mut() { let x = x.make_mut(); f(Slot::Desc(&mut x.description)); dirs(&mut x.directives, f) } }
+    fn sels(ss: &mut Vec<ast::Selection>, f: SlotFn) {
+        for s in ss.iter_mut() {
+            match s {
+                ast::Selection::Field(x) => { let x = x.make_mut(); args(&mut x.arguments, f); dirs(&mut x.directives, f); sels(&mut x.selection_set, f) }
+                ast::Selection::FragmentSpread(x) => dirs(&mut x.make_mut().directives, f),
+                ast::Selection::InlineFragment(x) => { let x = x.make_mut(); dirs(&mut x.directives, f); sels(&mut x.selection_set, f) }
+            }
+        }
+    }
+    use ast::Definition as D;
+    for def in doc.definitions.iter_mut() {
+        match def {
+            D::OperationDefinition(x) => { let x = x.make_mut(); for v in x.variables.iter_mut() { let v = v.make_mut(); if let Some(d) = &mut v.default_value { val(d, f) } dirs(&mut v.directives, f) } dirs(&mut x.directives, f); sels(&mut x.selection_set, f) }
+            D::FragmentDefinition(x) => { let x = x.make_mut(); dirs(&mut x.directives, f); sels(&mut x.selection_set, f) }
+            D::DirectiveDefinition(x) => { let x = x.make_mut(); f(Slot::Desc(&mut x.description)); for a in x.arguments.iter_mut() { ivd(a, f) } }
+            D::SchemaDefinition(x) => { let x = x.make_mut(); f(Slot::Desc(&mut x.description)); dirs(&mut x.directives, f) }
+            D::ScalarTypeDefinition(x) => { let x = x.make_mut(); f(Slot::Desc(&mut x.description)); dirs(&mut x.directives, f) }
+            D::ObjectTypeDefinition(x) => { let x = x.make_mut(); f(Slot::Desc(&mut x.description)); dirs(&mut x.directives, f); fds(&mut x.fields, f) }
+            D::InterfaceTypeDefinition(x) => { let x = x.make_mut(); f(Slot::Desc(&mut x.description)); dirs(&mut x.directives, f); fds(&mut x.fields, f) }
+            D::UnionTypeDefinition(x) => { let x = x.make_mut(); f(Slot::Desc(&mut x.description)); dirs(&mut x.directives, f) }
+            D::EnumTypeDefinition(x) => { let x = x.make_mut(); f(Slot::Desc(&mut x.description)); dirs(&mut x.directives, f); evs(&mut x.values, f) }
+            D::InputObjectTypeDefinition(x) => { let x = x.make_mut(); f(Slot::Desc(&mut x.description)); dirs(&mut x.directives, f); for a in x.fields.iter_mut() { ivd(a, f) } }
+            D::SchemaExtension(x) => dirs(&mut x.make_mut().directives, f),
+            D::ScalarTypeExtension(x) => dirs(&mut x.make_mut().directives, f),
+            D::ObjectTypeExtension(x) => { let x = x.make_mut(); dirs(&mut x.directives, f); fds(&mut x.fields, f) }
+            D::InterfaceTypeExtension(x) => { let x = x.make_mut(); dirs(&mut x.directives, f); fds(&mut x.fields, f) }
+            D::UnionTypeExtension(x) => dirs(&mut x.make_mut().directives, f),
+            D::EnumTypeExtension(x) => { let x = x.make_mut(); dirs(&mut x.directives, f); evs(&mut x.values, f) }
+            D::InputObjectTypeExtension(x) => { let x = x.make_mut(); dirs(&mut x.directives, f); for a in x.fields.iter_mut() { ivd(a, f) } }
+        }
+    }
+}
+
+/// the string at every site of `STRING_SITES`, serialized with `cfg`, reparsed, every site read back and compared
+fn all_sites_roundtrip(ctx: &mut Ctx, prefix: Option<&str>, level: usize, s: &str) {
+    let Ok(mut doc) = ast::Document::parse(STRING_SITES.replace("{L}", "\"x\""), "t.graphql") else { ctx.fail("string-sites-template", "", "template does not parse"); return };
+    let mut sites = 0usize;
+    walk_strings(&mut doc, &mut |slot| { sites += 1; match slot { Slot::Desc(d) => *d = Some(Node::new_str(s)), Slot::Val(v) => *v = Node::new(ast::Value::String(s.to_string())) } });
+    let input = format!("prefix={prefix:?} level={level} s={s:?}");
+    let text = match catch(|| { let ser = doc.serialize().initial_indent_level(level); match prefix { Some(p) => ser.indent_prefix(p).to_string(), None => ser.no_indent().to_string() } }) {
+        Ok(t) => t, Err(m) => { ctx.fail("string-serialize-panic", &input, &m); return }
+    };
+    match ast::Document::parse(text.clone(), "r.graphql") {
+        Ok(mut back) => {
+            let mut got = vec![];
+            walk_strings(&mut back, &mut |slot| match slot { Slot::Desc(d) => got.push(d.as_ref().map(|x| x.to_string())), Slot::Val(v) => got.push(v.as_str().map(|x| x.to_string())) });
+            let wrong = got.iter().filter(|g| g.as_deref() != Some(s)).count();
+            if got.len() != sites || wrong > 0 { ctx.fail("string-site-roundtrip", &input, &format!("{sites} sites written, {} read back, {wrong} of them differ; first: {:?}; text: {text:?}", got.len(), got.iter().find(|g| g.as_deref() != Some(s)))); }
+            else if back != doc { ctx.fail("string-site-roundtrip", &input, &format!("reparsed document differs; text: {text:?}")); }
+        }
+        Err(e) => ctx.fail("string-site-roundtrip", &input, &format!("does not reparse: {} ; text {text:?}", e.errors.to_string().lines().next().unwrap_or(""))),
+    }
+    ctx.stat("all_sites_roundtrips");
+    ctx.stat_n("string_sites_written", sites as u64);
+}
+
 /// the string at nested positions of a whole document: description of a type, of a field, of an
 /// argument; default value; directive argument — serialized with `cfg`, reparsed, compared
 fn nested_roundtrip(ctx: &mut Ctx, prefix: Option<&str>, level: usize, s: &str) {
@@ -66,6 +167,7 @@ fn nested_roundtrip(ctx: &mut Ctx, prefix: Option<&str>, level: usize, s: &str) 
         Err(e) => ctx.fail("string-nested-roundtrip", &format!("prefix={prefix:?} level={level} s={s:?}"), &format!("does not reparse: {} ; text {text:?}", e.errors.to_string().lines().next().unwrap_or(""))),
     }
     ctx.stat("nested_roundtrips");
+    all_sites_roundtrip(ctx, prefix, level, s);
 }
 
 pub fn str_case(ctx: &mut Ctx, prefix: Option<&str>, level: usize, s: &str) {
@@ -83,8 +185,53 @@ pub fn str_case(ctx: &mut Ctx, prefix: Option<&str>, level: usize, s: &str) {
     }
 }
 
+/// audit G2: inputs the enumerations above never (or only by luck) produce
+fn audit_families(ctx: &mut Ctx, cfgs: &[(Option<&'static str>, usize)]) {
+    // 1. every character that could need its own escape or be taken for white space / a line terminator, in
+    //    single-line and multi-line (block-string candidate) surroundings
+    let chars = crate::p03::sweep_chars();
+    let mut n = 0u64;
+    for (i, &c) in chars.iter().enumerate() {
+        let forms = [format!("{c}"), format!("a{c}"), format!("{c}a"), format!("a{c}a"), format!("{c}{c}"), format!("\n{c}"), format!("{c}\na"), format!("a\n{c}b"), format!(" {c}"),
+            format!("{c}\n b"), format!("a\n{c}"), format!("a\n {c}\nb"), format!("a\n{c} b\n{c} c"), format!("{c}\""), format!("{c}\\")];
+        for (j, s) in forms.iter().enumerate() {
+            let (p, l) = cfgs[(i + j) % cfgs.len()];
+            str_case(ctx, p, l, s); n += 1;
+            if (c as u32) < 0x21 || (0x7F..0xA1).contains(&(c as u32)) || (c as u32) > 0x17F { if j < 2 || j == 7 { nested_roundtrip(ctx, p, l, s); } }
+        }
+    }
+    ctx.stat_n("sweep_char_strings", n);
+    // 2. the 70-byte threshold of the one-line block form, in bytes and in multi-byte text, with the endings that force the multi-line form
+    let mut n = 0u64;
+    for len in 66..=75usize { for unit in ["a", "é", "日", "😀"] { for tail in ["", "\"", "\\", " ", "\"\"\""] {
+        let mut s = String::new();
+        while s.len() + unit.len() + tail.len() <= len { s.push_str(unit); }
+        s.push_str(tail);
+        for &(p, l) in &[cfgs[0], cfgs[3], cfgs[5]] { str_case(ctx, p, l, &s); n += 1; }
+        if tail.is_empty() || len == 70 || len == 71 { nested_roundtrip(ctx, Some("  "), 0, &s); }
+    } } }
+    ctx.stat_n("length_threshold_strings", n);
+    // 3. a second line-structured family: tabs and mixed indentation, white-space look-alikes at line start, lines ending in
+    //    a backslash or quotes, lines made of quotes
+    let lines = ["", "\t", " \t", "a", "\ta", " \ta", "\t a", "a\\", "\\", "\"\"\"", "a\"", "\u{3000}a", "\u{b}a", "\u{a0}", "\\\"\"\"", "  a"];
+    let mut ls = vec![];
+    for_all_strings(&["0", "1", "2", "3", "4", "5", "6", "7", "8", "9", "a", "b", "c", "d", "e", "f"], if ctx.thorough { 4 } else { 3 }, |code| {
+        if !code.is_empty() { ls.push(code.chars().map(|h| lines[h.to_digit(16).unwrap() as usize]).collect::<Vec<_>>().join("\n")); }
+    });
+    ctx.stat_n("line_structured_strings_2", ls.len() as u64);
+    for (i, s) in ls.iter().enumerate() { let (p, l) = cfgs[(i / 5) % cfgs.len()]; str_case(ctx, p, l, s); if i % 61 == 0 { nested_roundtrip(ctx, p, l, s); } }
+    // 4. configuration sweep on strings that take the block form or are close to it
+    let tricky = ["a\nb", " a\n b", "a\n b", "a\n\n b", "a\n \nb", "a\n\t\nb", "a\"", "a\\", "\"\"\"", "a\n\"\"\"\n\\", "é\n 日", "a \nb ", "a\n  b\n c", "\ta\n\tb", "a\n\tb", "x", "a\r\nb", ""];
+    let mut n = 0u64;
+    for prefix in [None, Some(""), Some(" "), Some("  "), Some("\t"), Some(" \t"), Some("\t\t"), Some("        ")] { for level in 0..=4usize { for s in tricky {
+        str_case(ctx, prefix, level, s); n += 1;
+        if level % 2 == 0 { nested_roundtrip(ctx, prefix, level, s); }
+    } } }
+    ctx.stat_n("config_sweep_cases", n);
+}
+
 pub fn run(ctx: &mut Ctx) {
-    let cfgs: [(Option<&str>, usize); 8] = [(Some("  "), 0), (None, 0), (Some(""), 2), (Some(" "), 1), (Some("\t"), 1), (Some("    "), 3), (Some("  "), 2), (Some("\t "), 1)];
+    let cfgs: [(Option<&str>, usize); 8] =[(Some("  "), 0), (None, 0), (Some(""), 2), (Some(" "), 1), (Some("\t"), 1), (Some("    "), 3), (Some("  "), 2), (Some("\t "), 1)];
     for s in ["", "a", "\"", "\\", "a\nb", "  a\n  b", "a\n\nb", "\"\"\"", "x\"\"\"\"", "a\\", "\n", " \n a", "a\rb", "é\n\t😀", "\u{1}\u{7f}\u{8}\u{c}", "trailing \n", "a\n ", "\\\"\"\""] {
         for (p, l) in cfgs { str_case(ctx, p, l, s); nested_roundtrip(ctx, p, l, s); }
     }
@@ -107,6 +254,7 @@ pub fn run(ctx: &mut Ctx) {
     }
     ctx.stat_n("line_structured_strings", ls.len() as u64);
     for (i, s) in ls.iter().enumerate() { let (p, l) = cfgs[(i / 3) % cfgs.len()]; str_case(ctx, p, l, s); if i % 97 == 0 { nested_roundtrip(ctx, p, l, s); } }
+    audit_families(ctx, &cfgs);
     let pieces = ["\"", "\"\"\"", "\\", "\n", "\r\n", "  ", "\t", "a", "word ", "é", "😀", "\u{0}", "\u{1f}", "\u{feff}", "\u{2028}", "long long long long long long long long long long long long long long text"];
     let n = if ctx.thorough { 200_000 } else { 20_000 };
     for i in 0..n {
